@@ -45,6 +45,8 @@ def plan(tier, seed):
     n = 12000 if tier == "quick" else 150000
     for i in range(NSH):
         jobs.append({"name": "bf3_%02d" % i, "spec": {"kind": "bf3", "n": n // NSH}})
+    for i in range(4 if tier == "quick" else 16):
+        jobs.append({"name": "hist%02d" % i, "spec": {"kind": "histories", "n": 120 if tier == "quick" else 4000}})
     nb = 1280 if tier == "quick" else 16000
     for i in range(NSH):
         jobs.append({"name": "bec2_%02d" % i, "spec": {"kind": "bec2", "n": nb // NSH, "i": i}})
@@ -53,7 +55,7 @@ def plan(tier, seed):
 
 def mandatory_bins(tier):
     b = ["offset_%d" % o for o in OFFSETS] + ["offset_random", "tag_order_not_sorted", "encrypted_component", "zero_components", "eight_tags",
-         "text_stream", "text_path", "bec2", "appnote_scripts", "block_cust_opened", "block_update_opened", "block_ecc_opened", "customer_key_in_slot"]
+         "text_stream", "text_path", "bec2", "appnote_scripts", "block_cust_opened", "block_update_opened", "block_ecc_opened", "customer_key_in_slot", "histories_under_layout_hooks"]
     b += ["blocks_" + "+".join(l) for l in GB.all_block_lists()]
     return b
 
@@ -199,6 +201,25 @@ def run_shard(spec, ctx):
                 run_bf3(ns, ctx, mon, case, key, off, scratch, i)
                 if i == 0:
                     ctx.sample({"kind": "bf3", "offset": off, "key": key, "case": case.to_json()})
+            return
+        if kind == "histories":
+            # object states reached through operation histories (set_config, derive, insert, write+read back ...):
+            # the history runner of C11 is driven with the layout hooks installed; only the hooks judge here
+            from . import c11
+            from ..ctx import ShardCtx
+
+            for i in range(spec["n"]):
+                seq = tuple(rng.choice(c11.ALPHA_FULL) for _ in range(rng.randrange(4, 18))) + (("writecheck",),)
+                sink = ShardCtx("C11", ctx.tier, ctx.seed, "sink")
+                mon.current_replay = {"kind": "history", "seq": [list(o) for o in seq]}
+                ctx.ev()
+                ctx.bin("histories_under_layout_hooks")
+                ctx.distinct("history", seq)
+                try:
+                    c11.run_sequence(ns, sink, seq)
+                except Exception as e:
+                    ctx.note("history_runner_raised_" + type(e).__name__)
+            ctx.sample({"kind": "history", "seq": [list(o) for o in seq]})
             return
         if kind == "bec2":
             lists = GB.all_block_lists()
